@@ -300,6 +300,8 @@ pub struct Outcome<T> {
 enum TState {
     Runnable,
     BlockedRecv(ChanId),
+    /// blocked in recv with a deadline on the simulated clock (recv_timeout)
+    BlockedRecvUntil(ChanId, u64),
     BlockedSend(ChanId),
     BlockedJoin(TaskId),
     /// waiting for a simulated Mutex / RwLock
@@ -712,6 +714,7 @@ impl Sched {
                     format!("blocked in recv(chan#{}; live senders: {})", c, self.chans[*c].senders)
                 }
                 TState::BlockedSend(c) => format!("blocked in send(chan#{} full)", c),
+                TState::BlockedRecvUntil(c, d) => format!("blocked in recv_timeout(chan#{}, until {} ns)", c, d),
                 TState::BlockedJoin(t) => format!("blocked in join(task {})", t),
                 TState::BlockedLock(l) => format!("blocked on lock#{} (held by {:?}, {} readers)", l, self.locks[*l].writer, self.locks[*l].readers),
                 TState::BlockedCond(c, d) => format!("waiting on condvar#{}{}", c, if d.is_some() { " (timed)" } else { "" }),
@@ -747,7 +750,7 @@ impl Sched {
 
     fn deadline_of(t: &Task) -> Option<u64> {
         match t.state {
-            TState::BlockedCond(_, Some(d)) | TState::BlockedUntil(d) => Some(d),
+            TState::BlockedCond(_, Some(d)) | TState::BlockedUntil(d) | TState::BlockedRecvUntil(_, d) => Some(d),
             _ => None,
         }
     }
@@ -909,11 +912,13 @@ pub fn yield_now() {
 /// Advance the simulated clock by `ns` and yield.
 pub fn sleep_ns(ns: u64) {
     if let Some((sh, me)) = current() {
-        {
-            let mut g = sh.lock();
-            g.clock_ns = g.clock_ns.saturating_add(ns);
+        if ns == 0 {
+            yield_point(&sh, me, Ev::Sleep { ns });
+        } else {
+            // the task is not runnable until the simulated clock reaches its deadline; the clock
+            // moves with the other tasks' steps and jumps when nothing else can run
+            sim_sleep_until(&sh, me, ns);
         }
-        yield_point(&sh, me, Ev::Sleep { ns });
     }
 }
 
@@ -1254,7 +1259,7 @@ pub(crate) fn chan_send(sh: &Arc<Shared>, chan: ChanId, push: impl FnOnce()) -> 
             }
             g.log(me, Ev::Send { chan, seq });
             for t in g.tasks.iter_mut() {
-                if t.state == TState::BlockedRecv(chan) {
+                if t.state == TState::BlockedRecv(chan) || matches!(t.state, TState::BlockedRecvUntil(c, _) if c == chan) {
                     t.state = TState::Runnable;
                 }
             }
@@ -1277,6 +1282,11 @@ pub(crate) enum RecvOutcome {
 
 /// `pop` is called with the scheduler lock held, exactly when a message is dequeued.
 pub(crate) fn chan_recv(sh: &Arc<Shared>, chan: ChanId, blocking: bool, pop: impl FnOnce()) -> RecvOutcome {
+    chan_recv_deadline(sh, chan, blocking, None, pop)
+}
+
+/// `timeout_ns`: give up (RecvOutcome::Empty) once that much simulated time has passed.
+pub(crate) fn chan_recv_deadline(sh: &Arc<Shared>, chan: ChanId, blocking: bool, timeout_ns: Option<u64>, pop: impl FnOnce()) -> RecvOutcome {
     let me = match current() {
         Some(x) if Arc::ptr_eq(&x.0, sh) => x.1,
         _ => {
@@ -1293,6 +1303,7 @@ pub(crate) fn chan_recv(sh: &Arc<Shared>, chan: ChanId, blocking: bool, pop: imp
     };
     let mut g = sh.lock();
     g = reschedule(sh, g, me);
+    let deadline = timeout_ns.map(|d| g.clock_ns.saturating_add(d));
     loop {
         if let Some((from, seq)) = g.chans[chan].q.pop_front() {
             pop();
@@ -1322,9 +1333,18 @@ pub(crate) fn chan_recv(sh: &Arc<Shared>, chan: ChanId, blocking: bool, pop: imp
             g.log(me, Ev::TryRecvEmpty { chan });
             return RecvOutcome::Empty;
         }
-        g.tasks[me].state = TState::BlockedRecv(chan);
+        if let Some(d) = deadline {
+            if g.clock_ns >= d {
+                g.log(me, Ev::User { tag: "recv-timeout", vals: vec![chan as i64] });
+                return RecvOutcome::Empty;
+            }
+            g.tasks[me].state = TState::BlockedRecvUntil(chan, d);
+        } else {
+            g.tasks[me].state = TState::BlockedRecv(chan);
+        }
         g = reschedule(sh, g, me);
         g.tasks[me].state = TState::Runnable;
+        g.tasks[me].timed_out = false;
         if g.aborted.is_some() {
             return RecvOutcome::Disconnected;
         }
@@ -1346,7 +1366,7 @@ pub(crate) fn chan_sender_drop(sh: &Arc<Shared>, chan: ChanId) {
     }
     if left == 0 {
         for t in g.tasks.iter_mut() {
-            if t.state == TState::BlockedRecv(chan) {
+            if t.state == TState::BlockedRecv(chan) || matches!(t.state, TState::BlockedRecvUntil(c, _) if c == chan) {
                 t.state = TState::Runnable;
             }
         }
